@@ -179,6 +179,20 @@ def check_case(case, acc):
         if [(r.pre, r.fill, id(r.node)) for r in kept] != [(e[0], e[1], id(e[2])) for e in exp]:
             raise Violation("kept-rendertree", "a RenderTree object iterated again after the tree changed still shows the old drawing")
         acc.tag("re-rendered_after_mutation")
+    # ... after the style object it draws with was given other glyphs (its vertical/cont/end are plain public attributes)
+    if not isinstance(style, type) and all(len(g) >= 1 for g in glyphs):
+        old = (style.vertical, style.cont, style.end)
+        new = ("!" + old[0][1:], "+" + old[1][1:], "\\" + old[2][1:])
+        style.vertical, style.cont, style.end = new
+        try:
+            exp = ref_rows(tree[case["start"]], childiter_of(case["childiter"]), case["maxlevel"], new)
+            fresh = RenderTree(tree[case["start"]], style=style, childiter=childiter_of(case["childiter"]), maxlevel=case["maxlevel"])
+            for what, rt in (("a RenderTree object that was iterated before", kept), ("a new RenderTree object", fresh)):
+                if [(r.pre, r.fill, id(r.node)) for r in rt] != [(e[0], e[1], id(e[2])) for e in exp]:
+                    raise Violation("style-glyphs", "%s does not draw with the glyphs its style object has now (%r)" % (what, new))
+        finally:
+            style.vertical, style.cont, style.end = old
+        acc.tag("re-rendered_after_the_style_object_changed")
     # ... and after its options were reassigned
     if case["maxlevel"] is not None:
         kept.maxlevel = None
@@ -447,16 +461,36 @@ def _enum_cases(max_nodes, index, count):
                         yield {"kind": "rows", "shape": forest.to_list(shape), "start": start, "style": style, "childiter": childiter, "maxlevel": maxlevel, "cls": ("Node", "EqNode", "LenNode", "Node", "FalsyNode")[k % 5]}
 
 
+def _wide_cases(widths):
+    """A node with several hundred children, two of which have children of their own."""
+    for width in widths:
+        shape = [[] for _ in range(width)]
+        shape[width // 2] = [[], []]
+        shape[-1] = [[[]], []]
+        for style in ("cont", ["I  ", "T--", "L--"]):
+            for childiter in ("list", "reversed", "filter"):
+                for maxlevel in (None, 2):
+                    yield {"kind": "rows", "shape": [shape, []], "start": 1 if maxlevel else 0, "style": style, "childiter": childiter, "maxlevel": maxlevel, "cls": "Node"}
+
+
 def plan(tier, seed):
     nshards = 16
     max_nodes = 6 if tier == "quick" else 8
     examples = 200 if tier == "quick" else 1500
     tasks = [{"engine": "enum", "max_nodes": max_nodes, "index": i, "count": nshards * 2} for i in range(nshards * 2)]
     tasks += [{"engine": "hyp", "examples": examples, "seed": seed * 1000 + i} for i in range(nshards)]
+    tasks += [{"engine": "wide", "widths": [w]} for w in ((300, 520) if tier == "quick" else (257, 258, 300, 520, 1500))]
     return tasks
 
 
 def run_task(task, acc):
+    if task["engine"] == "wide":
+        for case in _wide_cases(task["widths"]):
+            exc = acc.evaluate(check_case, case, enumerated=False)
+            if exc is not None:
+                acc.add_violation(case, exc)
+                break
+        return
     if task["engine"] == "enum":
         acc.run_enum(check_case, _enum_cases(task["max_nodes"], task["index"], task["count"]))
     else:
